@@ -284,6 +284,22 @@ def scn_filter_rows(T, case):
     C05.scn_rows(Renamed(T, "C05.rows.", "C01.rows."), case)
 
 
+# ------------------------------------------------------------------------------------ batches: every vector is evaluated for every realization
+def cases_batch_layout(tier):
+    from contracts import C07
+
+    return C07.cases_batch(tier)
+
+
+def scn_batch_layout(T, case):
+    """'The batch layout does not influence the numbers': the value reported for a vector of a batch is the estimate over the evaluator's
+    values AT THAT VECTOR - every realization is evaluated at every vector and the rows are labelled as such (C07's scenario with
+    realization-dependent functions of the vector, under this property's prefix)."""
+    from contracts import C07
+    from contracts.reuse import Renamed
+
+    C07.scn_batch(Renamed(T, "C07.batch.", "C01.batch."), case)
+
 SCENARIOS = [
     Scenario("calculate_functions", scn_functions, cases_functions, {"quick": 2, "thorough": 10}),
     Scenario("calculate_functions_stddev_given_weights", scn_functions, cases_stddev, {"quick": 5, "thorough": 20}),
@@ -293,6 +309,7 @@ SCENARIOS = [
     Scenario("filters_failures_and_combined_requests", scn_filters_and_failures, cases_filters_and_failures, {"quick": 5, "thorough": 30}),
     Scenario("validated_estimator_and_filter_maps", scn_index_maps, cases_index_maps, {"quick": 2, "thorough": 10}),
     Scenario("filter_rows", scn_filter_rows, cases_filter_rows, {"quick": 3, "thorough": 20}),
+    Scenario("batch_rows_are_evaluated_at_their_own_vector", scn_batch_layout, cases_batch_layout, {"quick": 3, "thorough": 20}),
 ]
 
 MANIFEST = {
